@@ -2,29 +2,9 @@
 
 package sugardb
 
-import (
-	"sync"
-
-	"github.com/echovault/sugardb/verifhook"
-)
+import "github.com/echovault/sugardb/verifhook"
 
 // storeRWMutex is the type of the global store lock. With the verif tag every acquisition is a
 // scheduling point for the simulation harness (the hook is called before the lock is requested,
-// i.e. while the store lock is not held by the caller).
-type storeRWMutex struct {
-	mu sync.RWMutex
-}
-
-func (m *storeRWMutex) Lock() {
-	verifhook.Yield("lock.store")
-	m.mu.Lock()
-}
-
-func (m *storeRWMutex) Unlock() { m.mu.Unlock() }
-
-func (m *storeRWMutex) RLock() {
-	verifhook.Yield("rlock.store")
-	m.mu.RLock()
-}
-
-func (m *storeRWMutex) RUnlock() { m.mu.RUnlock() }
+// i.e. while the store lock is not held by the caller) and the harness is told who holds it.
+type storeRWMutex = verifhook.RWMutex
